@@ -3,6 +3,7 @@ package c03
 import (
 	"fmt"
 	"math"
+	"strings"
 	"testing"
 
 	"gonum.org/v1/gonum/blas"
@@ -32,7 +33,7 @@ func checkSingular(s []float64) *vk.Failure {
 // drawShape draws (m, n) including the m >= 1.6 n and n >= 1.6 m regions.
 func drawShape(t *rapid.T, hi int) (m, n int) {
 	k := vk.Dim(t, "k", 0, hi, dimBoundaries...)
-	switch rapid.IntRange(0, 5).Draw(t, "shape") {
+	switch rapid.SampledFrom([]int{0, 1, 2, 3, 3, 4, 4, 5}).Draw(t, "shape") {
 	case 0: // square
 		return k, k
 	case 1: // m much larger than n (>= mnthr)
@@ -41,10 +42,10 @@ func drawShape(t *rapid.T, hi int) (m, n int) {
 	case 2:
 		k = min(k, hi*5/8)
 		return k, k*8/5 + rapid.IntRange(0, 6).Draw(t, "extra")
-	case 3: // m slightly larger
-		return k + rapid.IntRange(0, max(1, k/2)).Draw(t, "extra"), k
+	case 3: // m slightly larger (below mnthr)
+		return k + rapid.IntRange(1, max(1, k/2)).Draw(t, "extra"), k
 	case 4:
-		return k, k + rapid.IntRange(0, max(1, k/2)).Draw(t, "extra")
+		return k, k + rapid.IntRange(1, max(1, k/2)).Draw(t, "extra")
 	}
 	return vk.Dim(t, "m", 0, hi, dimBoundaries...), k
 }
@@ -100,6 +101,11 @@ func checkGesvd(c kase) *vk.Failure {
 	}
 	lwork, query, f := withWork(c, rng, minL, call, a, u, vt, s)
 	if f != nil {
+		if f.Key == "valid-call-panics" && n == 1 && anyPad(c.Pad, 3) && strings.Contains(f.Msg, "slice bounds out of range") {
+			// known finding: the m >= mnthr paths slice a[lda:] / vt[ldvt:]
+			// although a length of (m-1)*ld+n == 1 is all that is required
+			return vk.Failf("1x1-padded-leading-dimension-runtime-fault", "%s", f.Msg)
+		}
 		return f
 	}
 	shape := "square"
@@ -126,9 +132,6 @@ func checkGesvd(c kase) *vk.Failure {
 		vk.Inconclusive("gesvd-not-converged")
 		return nil
 	}
-	if f := firstFail(s.elemsFinite(), u.elemsFinite(), vt.elemsFinite()); f != nil {
-		return f
-	}
 	if jobU == lapack.SVDNone {
 		if f := u.same("unrequested-u-written"); f != nil {
 			return f
@@ -142,6 +145,9 @@ func checkGesvd(c kase) *vk.Failure {
 	if mn == 0 {
 		// U (m×m) / VT (n×n) for an empty A are not specified beyond the shapes
 		return nil
+	}
+	if f := firstFail(s.elemsFinite(), u.elemsFinite(), vt.elemsFinite()); f != nil {
+		return f
 	}
 	nonTrivial(c, mn, a0, jobU != lapack.SVDNone || jobVT != lapack.SVDNone, anyPad(c.Pad, 3), lwork < query)
 	sv := scaleVec(s.vec(), 1/sc)
@@ -313,7 +319,7 @@ func checkGebrd(c kase) *vk.Failure {
 	var lwork, query int
 	if c.J[0] == 0 {
 		var f *vk.Failure
-		lwork, query, f = withWork(c, rng, minL, func(work []float64, lwork int) {
+		lwork, query, f = withWorkE(c, rng, minL, mn == 0, func(work []float64, lwork int) {
 			impl.Dgebrd(m, n, a.data, lda, d.data, e.data, tq.data, tp.data, work, lwork)
 		}, a, d, e, tq, tp)
 		if f != nil {
@@ -406,7 +412,8 @@ func checkGebrd(c kase) *vk.Failure {
 			f.Key = "dorgbr-q-" + f.Key
 			return f
 		}
-		vk.Class(fmt.Sprintf("orgbr:Q,%s,cols=%d/3,%s", shape, c.J[1], lwClass(c, lw2, q2, minQ)))
+		vk.Class(fmt.Sprintf("orgbr:Q,%s,cols=%d/3", shape, c.J[1]))
+		vk.Class("orgbr:" + lwClass(c, lw2, q2, minQ))
 		if f := firstFail(qa.elemsFinite(), tau.same("dorgbr-tau-modified")); f != nil {
 			return f
 		}
@@ -437,7 +444,8 @@ func checkGebrd(c kase) *vk.Failure {
 			f.Key = "dorgbr-pt-" + f.Key
 			return f
 		}
-		vk.Class(fmt.Sprintf("orgbr:PT,%s,rows=%d/3,%s", shape, c.J[2], lwClass(c, lw2, q2, minP)))
+		vk.Class(fmt.Sprintf("orgbr:PT,%s,rows=%d/3", shape, c.J[2]))
+		vk.Class("orgbr:" + lwClass(c, lw2, q2, minP))
 		if f := firstFail(pa.elemsFinite(), tau.same("dorgbr-tau-modified")); f != nil {
 			return f
 		}
@@ -484,7 +492,8 @@ func checkGebrd(c kase) *vk.Failure {
 			f.Key = "dormbr-" + f.Key
 			return f
 		}
-		vk.Class(fmt.Sprintf("ormbr:%c%c%c,%s,%s", vect, side, trans, shape, lwClass(c, lw2, q2, minW)))
+		vk.Class(fmt.Sprintf("ormbr:%c%c%c,%s", vect, side, trans, shape))
+		vk.Class("ormbr:" + lwClass(c, lw2, q2, minW))
 		if f := firstFail(cm.elemsFinite(), tau.same("dormbr-tau-modified"), a.same("dormbr-a-not-restored")); f != nil {
 			return f
 		}
@@ -665,7 +674,8 @@ func checkBdsqr(c kase) *vk.Failure {
 	}, d, e, vt, u, cm, work); f != nil {
 		return f
 	}
-	vk.Class(fmt.Sprintf("bdsqr:uplo=%c,vt=%d,u=%d,c=%d", uplo, c.J[2], c.J[3], c.P))
+	vk.Class(fmt.Sprintf("bdsqr:uplo=%c", uplo))
+	vk.Class(fmt.Sprintf("bdsqr:vt=%d,u=%d,c=%d", c.J[2], c.J[3], c.P))
 	vk.Class(fmt.Sprint("bdsqr:cls=", c.Cls))
 	if n == 0 {
 		if !ok {
